@@ -392,7 +392,9 @@ HOSTILE_NAMES = [
     "plan", "secs", "inxs", "text1", "tablex", "asciiz", "includes", "mapper", "dwarf", "dlx", "pointer2", "scope1", "macro1", "if1", "for1", "else1", "iff",
     "fort", "lda_", "inc_value", "dec1", "rol_a", "tax_", "db_", "dw1", "x1", "a1", "b0", "w2", "l3", "s_", "x_", "y_", "i", "j", "k", "o", "O", "l1", "I",
     "EOF", "PATCH", "size", "__size", "a__size", "x__size", "Q", "z9", "zz", "ZZ", "Zz", "zZ",
+    "no_else", "or_else", "xelse", "else_", "my_if", "endfor", "submacro", "inscope", "atable", "_value", "__x", "mydb", "adl",
 ]
+assert len(set(HOSTILE_NAMES)) == len(HOSTILE_NAMES), "two identifiers must never be re-spelled alike"
 
 
 def all_spellings(prog: list) -> list[str]:
